@@ -87,6 +87,8 @@ func (l *TCP) Serve(establish EstablishFn) {
 					l.log.Warn("", "error", err)
 				}
 			}()
+		} else {
+			_ = conn.Close() // accepted while the listener is closing: do not leave the connection open and unserved
 		}
 	}
 }
